@@ -774,7 +774,7 @@ def build_cases(ctx, tier):
 
 def world_stage(ctx, tier):
     """several trees in one process: histories through child_nodes()/set_child_nodes, Tree(seed_node=attached node),
-    tree.seed_node = attached node, node.parent_node = other, new_child, remove_child, trees created later; every live
+    tree.seed_node = attached node, node.parent_node = other, new_child, remove_child, refused calls (wave 8), trees created later; every live
     tree re-traversed with every iterator after every step (dv.c15_world)"""
     from dv import c15_world
     cases = c15_world.fixed_world_cases()
@@ -870,6 +870,9 @@ def run(tier, seed, replay=None):
              "subsets; a case is non-trivial when the start node's subtree has >= 3 nodes; distinct by full case content; "
              "plus multi-tree histories (dv.c15_world): 1-3 small trees, 2-5 (thorough 2-8) steps among child_nodes()-copy "
              "edited and assigned back / kept, Tree(seed_node=attached node), tree.seed_node = attached node, "
-             "node.parent_node = other, new_child, remove_child, new tree; after every step every live tree is "
+             "node.parent_node = other, new_child, remove_child, new tree, and (wave 8) REFUSED calls caught by the caller "
+             "(remove_child of a node that is not a child of the receiver: child of another node / itself / its parent / a seed / "
+             "a node of another tree; add_child of the node itself / its parent; the spec world does not change, the pointers of "
+             "every node ever created are compared before/after); after every step every live tree is "
              "traversed with every iterator kind under a step bound and compared with the recursive definition on the "
              "harness's spec world; pointer structure, list identities and caller-held lists observed as well")
